@@ -314,7 +314,7 @@ class HistoryArm(Arm):
 
         fl = st.floats(min_value=-1e3, max_value=1e3, allow_nan=False, allow_infinity=False, width=32)
         gap = st.one_of(st.floats(min_value=1e-6, max_value=10.0, allow_nan=False),
-                        st.sampled_from([1e-3, 0.1, 0.25, 1.0]))
+                        st.sampled_from([1e-3, 0.1, 0.25, 1.0, 2.0 ** -12, 2.0 ** -10]))
         shapes = st.sampled_from([[], [1], [3], [2, 2], [3, 1]])
         big = ctx.tier == "thorough"
         bulk_n = st.one_of(st.integers(1, 40), st.integers(1000, 1100),
@@ -335,8 +335,9 @@ class HistoryArm(Arm):
                 self.it.step(op)
 
             @initialize(shape=shapes, dtype=st.sampled_from(["f8", "f8", "f4", "c16"]),
-                        t0=st.one_of(st.just(0.0), st.floats(-5, 5, allow_nan=False)),
-                        max_steps=st.one_of(st.none(), st.none(), st.integers(1, 8)),
+                        t0=st.one_of(st.just(0.0), st.floats(-5, 5, allow_nan=False),
+                                     st.sampled_from([1048576.0, 1.7e9, -3.0e6, 86400.0 * 365])),
+                        max_steps=st.one_of(st.none(), st.none(), st.integers(1, 8), st.sampled_from([1030, 1500, 2100])),
                         y0=st.lists(fl, min_size=8, max_size=8))
             def init(self, shape, dtype, t0, max_steps, y0):
                 self._do({"op": "init", "shape": shape, "dtype": dtype, "t0": t0, "max_steps": max_steps, "y0": y0})
@@ -345,7 +346,7 @@ class HistoryArm(Arm):
             def update(self, g, y):
                 self._do({"op": "update", "gap": g, "y": y})
 
-            @precondition(lambda self: self.it.max_steps is None and len(self.it.ts) < 5200)
+            @precondition(lambda self: (self.it.max_steps is None or self.it.max_steps > 1000) and len(self.it.ts) < 5200)
             @rule(n=bulk_n, gaps=st.lists(gap, min_size=1, max_size=4), a=st.floats(-2, 2, allow_nan=False),
                   b=st.floats(-5, 5, allow_nan=False), w=st.floats(0.01, 2, allow_nan=False))
             def bulk(self, n, gaps, a, b, w):
